@@ -811,12 +811,47 @@ def _roles_not_redefined(fn, rule, matched, binding, root=None, extra_defs_ok=()
                 if it.optional_vars is not None:
                     out += [n.id for n in ast.walk(it.optional_vars) if isinstance(n, ast.Name)]
         return out
+    MUTATORS = ('append', 'extend', 'insert', 'pop', 'remove', 'sort', 'reverse', 'update', 'clear', 'add', 'discard',
+                'setdefault', 'popitem', 'fill', 'resize', 'put', 'itemset', 'partition', 'byteswap')
+
+    def mutated(st):
+        """local names a statement modifies in place (mutator call, store through subscript/attribute, del)."""
+        out = []
+        if isinstance(st, ast.Expr) and isinstance(st.value, ast.Call) and isinstance(st.value.func, ast.Attribute) \
+                and st.value.func.attr in MUTATORS and isinstance(st.value.func.value, ast.Name):
+            out.append(st.value.func.value.id)
+        elif isinstance(st, (ast.Assign, ast.AugAssign)):
+            tg = st.targets if isinstance(st, ast.Assign) else [st.target]
+            for t in tg:
+                if isinstance(t, (ast.Subscript, ast.Attribute)):
+                    r = t
+                    while isinstance(r, (ast.Subscript, ast.Attribute)):
+                        r = r.value
+                    if isinstance(r, ast.Name):
+                        out.append(r.id)
+        elif isinstance(st, ast.Delete):
+            for t in st.targets:
+                r = t
+                while isinstance(r, (ast.Subscript, ast.Attribute)):
+                    r = r.value
+                if isinstance(r, ast.Name):
+                    out.append(r.id)
+        return out
     defined_here = set()
+    mutated_here = set()
     for st in matched.values():
         defined_here |= set(targets(st))
+        mutated_here |= set(mutated(st))
     seen = set()
     inits = {}
     for st in fn.walk(root, into_nested=False):
+        if isinstance(st, ast.stmt) and id(st) not in matched_ids:
+            # in-place modification of a local whose definition or modifications the inventory documents
+            for name in mutated(st):
+                if name in roles and (name in defined_here or name in mutated_here) and name not in params \
+                        and roles[name] not in extra_defs_ok and (name, id(st)) not in seen:
+                    seen.add((name, id(st)))
+                    fn.cx.pending_redef.append((fn, rule, roles[name], name, st))
         if not isinstance(st, (ast.Assign, ast.AugAssign, ast.AnnAssign, ast.For, ast.With)) or id(st) in matched_ids:
             continue
         if isinstance(st, ast.Assign) and len(st.targets) == 1 and isinstance(st.targets[0], ast.Name) and st.targets[0].id in roles \
@@ -846,7 +881,7 @@ def settle_redefinitions(cx):
         if id(st) in cx.documented:
             continue
         cx.ob(rule, 'the value in role %s is defined by documented statements only' % role, False, fn.mod, st, fn.qual,
-              detail='`%s` also defines `%s`, which the documented steps use as %s' % (norm_stmt(st)[:120], name, role),
+              detail='`%s` also defines or modifies `%s`, which the documented steps use as %s' % (norm_stmt(st)[:120], name, role),
               key='redef|%s|%s' % (role, sym.show(sym.stmt_nf(st))[:80]))
     cx.pending_redef = []
 
